@@ -228,6 +228,76 @@ def r34_opacity(ctx, chk, rule3="C13.3", rule4="C13.4"):
     _canary(ctx, chk)
 
 
+def r6_precision_mix(ctx, chk, rule="C13.6"):
+    """A value of a state field compared with a ROUNDED aggregate of the same field (or the other way round): whether
+    `raw <= round(min ...)` holds for the minimiser itself depends on float noise of 1 ulp - and that noise depends on the
+    order in which a probabilistic state lists its transitions - so the set selected by the test differs between two
+    presentations of one game although every reported number agrees within tolerance."""
+    FIELDS = ("reach_probability", "expected_rewards", "expected_rewards_min_reach", "expected_reach_min_rewards")
+    n = hits = 0
+    for f in shared.solver_scope(ctx):
+        if f.mod.name != "tad.py":
+            continue
+        cls = f.cls.name if f.cls else None
+        try:
+            sx = SymX(ctx, f, cls, inline_depth=1).run()
+        except Exception:
+            continue
+
+        def reads(t, under_round=False, depth=0, out=None):
+            """{(field, rounded?)} read inside t, looking through comprehensions and loop results"""
+            out = set() if out is None else out
+            if not isinstance(t, tuple) or not t or depth > 6:
+                return out
+            if t[0] == "call" and t[1] == "round" and t[2]:
+                reads(t[2][0], True, depth + 1, out)
+                return out
+            if t[0] == "attr" and t[2] in FIELDS:
+                out.add((t[2], under_round))
+            if t[0] == "compr" and t[1] in sx.loops and sx.loops[t[1]].elt is not None:
+                reads(sx.loops[t[1]].elt, under_round, depth + 1, out)
+            if t[0] == "res" and t[1] in sx.loops:
+                u = sx.loops[t[1]].update.get(t[2])
+                if u is not None:
+                    reads(u, under_round, depth + 1, out)
+            for x in t[1:]:
+                if isinstance(x, tuple):
+                    if x and isinstance(x[0], str):
+                        reads(x, under_round, depth + 1, out)
+                    else:
+                        for y in x:
+                            if isinstance(y, tuple):
+                                reads(y, under_round, depth + 1, out) if (y and isinstance(y[0], str)) else [reads(z, under_round, depth + 1, out) for z in y if isinstance(z, tuple)]
+            return out
+        terms = []
+        for e in list(sx.final.effects) + [e for l in sx.loops.values() for e in l.effects]:
+            terms += C02._sub(e)
+        for l in sx.loops.values():
+            for u in l.update.values():
+                terms += C02._sub(u)
+            for c in getattr(l, "filters", []) or []:
+                terms += C02._sub(c)
+        terms += C02._sub(sx.ret) if sx.ret is not None else []
+        seen = set()
+        for t in terms:
+            if t[0] != "cmp" or t[1] not in ("<", "<=", "==", "!=") or t in seen:
+                continue
+            seen.add(t)
+            a, b = reads(t[2]), reads(t[3])
+            if not a or not b:
+                continue
+            n += 1
+            for fld in FIELDS:
+                if ((fld, False) in a and (fld, True) in b and (fld, True) not in a) or ((fld, False) in b and (fld, True) in a and (fld, True) not in b):
+                    hits += 1
+                    chk.violation(rule, f.where(), "%s compares an unrounded `%s` with a rounded value of the same quantity: `%s` - whether the comparison holds for values that agree "
+                                  "up to float noise depends on the order in which transitions are summed, i.e. on how the game is written down" % (f.short, fld, show(t)[:120]),
+                                  expected="both sides at the same precision", found=show(t)[:160], construct="%s mixed precision on %s" % (f.short, fld))
+                    break
+    if not hits:
+        chk.ok(rule, "tad.py", "%d comparisons between state quantities examined: none compares a raw value with a rounded value of the same quantity" % n)
+
+
 def r5_pruning_order(ctx, chk, rule="C13.5"):
     """Pruning decisions for one state must not depend on what earlier iterations of the same sweep did
     (that would make the outcome depend on the numbering of the states)."""
@@ -324,6 +394,7 @@ def run(ctx, chk):
     shared.rule_node_keeps_transitions(ctx, chk, "C13.pre:C01.2")
     r34_opacity(ctx, chk)
     r5_pruning_order(ctx, chk)
+    r6_precision_mix(ctx, chk)
     from . import C01, C10
     # "within convergence tolerance" and "never changes whether the game is declared solvable" presume that each sweep runs until
     # its residual is below the threshold and leaves its loop in no other way: how many sweeps that takes depends on the numbering
